@@ -135,6 +135,8 @@ class InducingPointKernel(Kernel):
             likelihood=self.likelihood,
             active_dims=self.active_dims,
         )
+        # a freshly constructed module is in training mode: keep the mode of the kernel that is being copied
+        cp.training = self.training
 
         if replace_inv_root:
             cp._cached_kernel_inv_root = kernel_inv_root
